@@ -22,7 +22,7 @@ from puresnmp.adt import (
     V3Flags,
 )
 from puresnmp.credentials import V3, Credentials
-from puresnmp.exc import ErrorResponse, SnmpError
+from puresnmp.exc import ErrorResponse, NotInTimeWindow, SnmpError
 from puresnmp.pdu import GetRequest, PDUContent, Report
 from puresnmp.plugins.security import SecurityModel
 from puresnmp.transport import MESSAGE_MAX_SIZE
@@ -636,7 +636,12 @@ def validate_usm_message(message: PlainMessage) -> None:
         ObjectIdentifier("1.3.6.1.6.3.15.1.1.5.0"): "Wrong message digest",
         ObjectIdentifier("1.3.6.1.6.3.15.1.1.6.0"): "Unable to decrypt",
     }
+    not_in_time_window = ObjectIdentifier("1.3.6.1.6.3.15.1.1.2.0")
     for varbind in pdu.varbinds:
+        if varbind.oid == not_in_time_window:
+            raise NotInTimeWindow(
+                str(varbind.oid), varbind.value.pythonize(), "remote"
+            )
         if varbind.oid in errors:
             msg = errors[varbind.oid]
             raise SnmpError(f"Error response from remote device: {msg}")
